@@ -64,7 +64,11 @@ func (w *World) installCallbackFaults() {
 			sc.fired["compare-fail"]++
 			return 0, ErrInjCompare
 		}
-		return baseCmp(a, b)
+		c, err := baseCmp(a, b)
+		if w.cfg.CmpScale != 0 {
+			c *= w.cfg.CmpScale
+		}
+		return c, err
 	}
 	w.cb = &Callbacks{Marshal: mar, Unmarshal: unm, KeyCompare: cmp}
 	w.layerFn = mast.DefaultLayer(baseMar)
